@@ -518,7 +518,7 @@ def stage_bitpairs(ctx, have_model):
 
 
 # =============================================================================== guarded key generation
-class KeygenTimeout(Exception):
+class KeygenTimeout(BaseException):
     """generate_keypair searches for a 'good' Weil pairing by brute force: with broken arithmetic it never ends"""
 
 
@@ -852,6 +852,40 @@ def range_model_case(v, a, b, a2, b2, s, t, acc, sec, cs):
     return "((%s, %s, %s, %s, %s, %s, %s), %s, %s)" % (cz(v), cz(a), cz(b), cz(a2), cz(b2), cz(s), cz(t), rd, tbl_s)
 
 
+def cheating_attest_pair(PK, value, a, b, bitspace, r, variant):
+    """A prover who follows create_attest_pair for a value OUTSIDE [a, b], except where honesty is impossible:
+    mst is negative, so instead of writing it as m1 + m2 + m4^2 with positive parts he lets one part go negative.
+    Every equation the verifier tests still holds; only the sign tests on the answers can stop him."""
+    from ipv8.attestation.wallet.pengbaorange.boudot import EL, SQR
+    from ipv8.attestation.wallet.pengbaorange.structs import (PengBaoAttestation, PengBaoCommitment,
+                                                               PengBaoCommitmentPrivate, PengBaoPublicData)
+    rn = lambda n: r.getrandbits(8 * n) + 1
+    bytespace = bitspace // 8
+    rr, ra, raa, w = rn(bytespace), rn(bytespace), rn(bitspace // 16) ** 2, rn(bytespace)
+    w2 = w * w
+    c = PK.g.intpow(value) * PK.h.intpow(rr)
+    c1 = c // (PK.g.intpow(a - 1))
+    c2 = PK.g.intpow(b + 1) // c
+    ca = c1.intpow(b - value + 1) * PK.h.intpow(ra)
+    caa = ca.intpow(w2) * PK.h.intpow(raa)
+    mst = w2 * (value - a + 1) * (b - value + 1)
+    m4 = rn(bytespace)
+    m3 = m4 * m4
+    m1 = rn(bytespace * 2) if variant == 0 else -rn(bytespace * 2)
+    m2 = mst - m1 - m3
+    rst = w2 * ((b - value + 1) * rr + ra) + raa
+    r1, r2 = rn(bytespace * 4), rn(bytespace * 4)
+    r3 = rst - r1 - r2
+    ca1 = PK.g.intpow(m1) * PK.h.intpow(r1)
+    ca2 = PK.g.intpow(m2) * PK.h.intpow(r2)
+    ca3 = caa // (ca1 * ca2)
+    el = EL.create(b - value + 1, -rr, ra, PK.g, PK.h, c1, PK.h, b, bitspace)
+    sqr1 = SQR.create(w, raa, ca, PK.h, b, bitspace)
+    sqr2 = SQR.create(m4, r3, PK.g, PK.h, b, bitspace)
+    pub = PengBaoPublicData(PK, bitspace, PengBaoCommitment(c, c1, c2, ca, ca1, ca2, ca3, caa), el, sqr1, sqr2)
+    return PengBaoAttestation(pub, PengBaoCommitmentPrivate(m1, m2, m3, r1, r2, r3))
+
+
 def range_alg(a, b, ks=32):
     from ipv8.attestation.wallet.pengbaorange.algorithm import PengBaoRangeAlgorithm
     return PengBaoRangeAlgorithm("f", {"f": {"algorithm": "pengbaorange", "key_size": ks, "min": a, "max": b}})
@@ -861,7 +895,15 @@ def int_to_value(v):
     return v.to_bytes(max(1, (v.bit_length() + 7) // 8), "big")
 
 
+# Open finding (model: range_soundness_against_key_owner_refuted).  In the deployed trust model the commitments
+# come from a trusted attester, so this is reported through the verdict only once the coordinator has registered
+# the key as an open finding in known_findings.jsonl; it is always counted in the evidence (range_stats).
+FORGERY_KEY = "range/forged-proof-accepted-by-key-owner"
+
+
 def stage_range(ctx, have_model):
+    from tools.vlib import findings
+    open_findings = findings.open_keys("C18")
     from ipv8.attestation.wallet.pengbaorange.attestation import create_attest_pair
     from ipv8.attestation.wallet.pengbaorange.structs import PengBaoAttestation
     from ipv8.attestation.wallet.primitives.structs import unpack_pair
@@ -969,6 +1011,28 @@ def stage_range(ctx, have_model):
                     else:
                         ctx.violation("range/outside-buildable", "create_attest_pair returned a proof for %d outside [%d, %d]" % (vo, a, b), case_o)
                 else:
+                    for variant in (0, 1):      # a prover who does not give up: negative m2 / negative m1
+                        forged = cheating_attest_pair(pk, vo, a, b, ks, r, variant)
+                        pubf = PengBaoAttestation.unserialize(forged.serialize(), "f")
+                        aggf = alg.create_certainty_aggregate(pubf)
+                        for ch in alg.create_challenges(pubf.PK, pubf):
+                            try:
+                                alg.process_challenge_response(aggf, ch, alg.create_challenge_response(sk, forged, ch))
+                            except Exception:  # noqa: BLE001   a negative answer cannot even be serialised
+                                stats["forged_unsendable"] = stats.get("forged_unsendable", 0) + 1
+                            # observation, not judged: the key owner knows the group order n = t1*t2 and can
+                            # send the answers reduced modulo n (see the report: trust model of the range proof)
+                            s_, t_, _ = unpack_pair(ch)
+                            xs = forged.privatedata.generate_response(s_, t_)
+                            if pubf.publicdata.check(a, b, s_, t_, *[q % sk.n for q in xs]):
+                                stats["forged_mod_group_order_accepted"] = stats.get("forged_mod_group_order_accepted", 0) + 1
+                                if FORGERY_KEY in open_findings:
+                                    ctx.violation(FORGERY_KEY, "a forged proof for %d, answers reduced modulo n = t1*t2, was accepted for [%d, %d]"
+                                                  % (vo, a, b), dict(case_o, kind="range-cheat-mod-n", variant=variant))
+                        ctx.count(("range-cheat", a, b, vo, variant))
+                        if alg.certainty(b"\x01", aggf) != 0.0:
+                            ctx.violation("range/outside-accepted", "a forged proof (negative part of the decomposition, variant %d) "
+                                          "for %d was accepted for [%d, %d]" % (variant, vo, a, b), dict(case_o, kind="range-cheat", variant=variant))
                     acc = {"r": d.log[0], "ra": d.log[1], "raa": d.log[2], "w": d.log[3], "m4": d.log[4] if len(d.log) > 4 else 0,
                            "m1": 0, "r1": 0, "r2": 0}
                     cases.append((range_model_case(vo, a, b, a, b, 40000, 50000, acc, [], None), coq_res(res)))
@@ -1307,6 +1371,39 @@ def rerun_case(ctx, case):
     if k == "small":
         small_bitspace_run(ctx, r, case["bitspace"], [])
         return "all orders and subsets, bit space %d" % case["bitspace"]
+    if k == "range-cheat-mod-n":
+        from ipv8.attestation.wallet.pengbaorange.structs import PengBaoAttestation
+        from ipv8.attestation.wallet.primitives.structs import unpack_pair
+        a, b, v, ks = case["a"], case["b"], case["v"], case["key_size"]
+        alg = range_alg(a, b, ks)
+        sk = guarded(alg.generate_secret_key)
+        with patched_range(r):
+            forged = cheating_attest_pair(sk.public_key(), v, a, b, ks, r, case.get("variant", 0))
+            pubf = PengBaoAttestation.unserialize(forged.serialize(), "f")
+            s_, t_, _ = unpack_pair(alg.create_challenges(pubf.PK, pubf)[0])
+            xs = forged.privatedata.generate_response(s_, t_)
+            ok = pubf.publicdata.check(a, b, s_, t_, *[q % sk.n for q in xs])
+        if ok:
+            ctx.violation(FORGERY_KEY, "forged proof for %d accepted for [%d, %d] with answers reduced modulo n" % (v, a, b), case)
+        return "forged range proof for %d against [%d, %d], answers mod n: accepted=%s" % (v, a, b, ok)
+    if k == "range-cheat":
+        from ipv8.attestation.wallet.pengbaorange.structs import PengBaoAttestation
+        a, b, v, ks = case["a"], case["b"], case["v"], case["key_size"]
+        alg = range_alg(a, b, ks)
+        sk = guarded(alg.generate_secret_key)
+        with patched_range(r):
+            forged = cheating_attest_pair(sk.public_key(), v, a, b, ks, r, case.get("variant", 0))
+            pubf = PengBaoAttestation.unserialize(forged.serialize(), "f")
+            aggf = alg.create_certainty_aggregate(pubf)
+            for ch in alg.create_challenges(pubf.PK, pubf):
+                try:
+                    alg.process_challenge_response(aggf, ch, alg.create_challenge_response(sk, forged, ch))
+                except Exception:  # noqa: BLE001
+                    pass
+            s = alg.certainty(b"\x01", aggf)
+        if s != 0.0:
+            ctx.violation("range/outside-accepted", "forged proof for %d accepted for [%d, %d]" % (v, a, b), case)
+        return "forged range proof for %d against [%d, %d]: certainty %r" % (v, a, b, s)
     if k in ("range", "range-out"):
         from ipv8.attestation.wallet.pengbaorange.attestation import create_attest_pair
         from ipv8.attestation.wallet.pengbaorange.structs import PengBaoAttestation
